@@ -252,6 +252,9 @@ func Check(c *Case) (o core.Outcome) {
 	o.Label("planes=%d", c.planes())
 	o.Label("planar=%d", c.Planar)
 	o.Label("mode=%s", c.Mode)
+	if c.pixels() >= 1<<16 {
+		o.Label("pixels>=65536")
+	}
 	if len(frame)%2 == 1 {
 		o.Label("odd-frame")
 	}
@@ -389,6 +392,23 @@ func TestQuota(t *testing.T) {
 			core.Eval(t, ID, "quota", c, Check)
 		}
 		_ = name
+	}
+	// frames of 2^16 pixels and more, in every layout: pixel counts and plane offsets that no
+	// longer fit 16 bits (Rows and Columns are 16-bit attributes, their product is not)
+	dims := [][2]int{{256, 256}, {257, 256}, {300, 219}, {255, 258}, {1024, 65}, {2, 40000}, {33000, 2}, {512, 129}}
+	i := 0
+	for _, ba := range []int{8, 16} {
+		for _, spp := range []int{1, 3} {
+			for planar := 0; planar <= 1; planar++ {
+				d := dims[(i+seed)%len(dims)]
+				c := &Case{Rows: d[0], Cols: d[1], BitsAlloc: ba, SPP: spp, Planar: planar, Mode: []string{"noise", "alpha"}[(i+seed)%2], Seed: uint64(seed*31 + i)}
+				if c.Mode == "alpha" {
+					c.Alpha = []byte{0, 255, byte(i)}
+				}
+				core.Eval(t, ID, "quota", c, Check)
+				i++
+			}
+		}
 	}
 	// the two extreme strips named by the property
 	for _, rc := range [][2]int{{65535, 1}, {1, 65535}} {
